@@ -159,6 +159,10 @@ func (g *G) genRandom(id string, opt randOpt) *History {
 			method = pick(g, append(append([]string{}, unsafeMethods...), safeOtherMethods...)...)
 		}
 		if opt.methods && g.chance(0.07) {
+			if g.chance(0.3) {
+				// a Range field whose first field line is empty is still a Range request
+				hdr = append(hdr, [2]string{"Range", ""})
+			}
 			hdr = append(hdr, [2]string{"Range", "bytes=0-1"})
 		}
 		if g.chance(0.15) {
